@@ -249,7 +249,7 @@ fn expected_followup(_shape: Shape) -> Option<Delivered> {
     None
 }
 
-fn check_single_use(shape: Shape, path: Path, routing: &[u8]) -> Result<String, String> {
+fn check_single_use(shape: Shape, path: Path, routing: &[u8], by_verify: bool) -> Result<String, String> {
     let c = Arc::new(Counters::default());
     let original = Quiet::new(single_use_mock(shape, path, &c));
     let n = n_tokens(shape);
@@ -302,7 +302,7 @@ fn check_single_use(shape: Shape, path: Path, routing: &[u8]) -> Result<String, 
     if c.dropped.load(Ordering::SeqCst) != delivered {
         return Err("dropping a clone dropped stored tokens while the original is alive".into());
     }
-    drop(original);
+    teardown(original, by_verify);
     let (cons, dropped, cloned) = (
         c.constructed.load(Ordering::SeqCst),
         c.dropped.load(Ordering::SeqCst),
@@ -312,6 +312,17 @@ fn check_single_use(shape: Shape, path: Path, routing: &[u8]) -> Result<String, 
         return Err(format!("after teardown: constructed {cons}, dropped {dropped}, cloned {cloned}"));
     }
     Ok(summary.join(","))
+}
+
+/// Tear the original down by dropping it or by an explicit verify() (whose verdict is not what
+/// is observed here: only that every stored value is released).
+fn teardown(original: Quiet, by_verify: bool) {
+    if by_verify {
+        let u = original.take();
+        let _ = catch(move || u.verify());
+    } else {
+        drop(original);
+    }
 }
 
 #[derive(Clone, Copy, Debug, PartialEq, Eq)]
@@ -420,7 +431,7 @@ fn cexpected(shape: CShape, id: u32) -> Delivered {
     }
 }
 
-fn check_multi_use(shape: CShape, path: MultiPath, routing: &[u8]) -> Result<String, String> {
+fn check_multi_use(shape: CShape, path: MultiPath, routing: &[u8], by_verify: bool) -> Result<String, String> {
     let c = Arc::new(Counters::default());
     let original = Quiet::new(multi_mock(shape, path, &c));
     let stored = c.constructed.load(Ordering::SeqCst);
@@ -459,7 +470,7 @@ fn check_multi_use(shape: CShape, path: MultiPath, routing: &[u8]) -> Result<Str
     if dropped_now != multi_requests + head_delivered {
         return Err(format!("stored originals were dropped before teardown: {dropped_now} drops after {multi_requests} multi-use requests"));
     }
-    drop(original);
+    teardown(original, by_verify);
     let total = c.constructed.load(Ordering::SeqCst) + c.cloned.load(Ordering::SeqCst);
     if c.dropped.load(Ordering::SeqCst) != total {
         return Err(format!("after teardown: {} values created (constructed + cloned) but {} dropped", total, c.dropped.load(Ordering::SeqCst)));
@@ -536,13 +547,14 @@ fn main() {
                 ctx.tick();
                 stats.add("traces_validated_against_impl", 1);
                 stats.add("transitions", routing.len() as u64 + 2);
-                match check_single_use(shape, path, routing) {
+                let by_verify = routing.len() % 2 == 1;
+                match check_single_use(shape, path, routing, by_verify).and_then(|s| check_single_use(shape, path, routing, !by_verify).map(|_| s)) {
                     Ok(summary) => {
                         outcomes.insert(format!("single:{summary}"));
                     }
                     Err(what) => ctx.violation(
                         &format!("single-use:{shape:?}/{path:?}"),
-                        &format!("shape {shape:?}, path {path:?}, requests routed {routing:?}: {what}"),
+                        &format!("shape {shape:?}, path {path:?}, requests routed {routing:?} (teardown by drop and by verify()): {what}"),
                         J::obj().set("kind", "single-use").set("shape", format!("{shape:?}")).set("path", format!("{path:?}")).set("routing", format!("{routing:?}")),
                     ),
                 }
@@ -558,7 +570,7 @@ fn main() {
                 ctx.tick();
                 stats.add("traces_validated_against_impl", 1);
                 stats.add("transitions", routing.len() as u64 + 2);
-                match check_multi_use(shape, path, routing) {
+                match check_multi_use(shape, path, routing, false).and_then(|s| check_multi_use(shape, path, routing, true).map(|_| s)) {
                     Ok(summary) => {
                         outcomes.insert(format!("multi:{summary}"));
                     }
